@@ -1,6 +1,281 @@
-//! Handle-consuming APIs on linked objects (C12).  Filled in later.
-use crate::script::Op;
-pub fn apply(_op: &Op) {
-    crate::world::count(crate::world::ctr::NOOPS, 1);
+//! Handle-consuming APIs on objects that take part in adoptions (C12, and the
+//! no-adoption part of C14's domain).
+
+use crate::arena::{self, CtxKind};
+use crate::exec::{violate, View};
+use crate::model::*;
+use crate::script::*;
+use crate::world::*;
+use cactusref::Rc;
+use std::mem::ManuallyDrop;
+
+fn noop() {
+    count(ctr::NOOPS, 1);
 }
-pub fn cleanup() {}
+
+fn take_rc(h: LoggedRc) -> Rc<Node> {
+    let h = ManuallyDrop::new(h);
+    unsafe { std::ptr::read(&*h.h) }
+}
+
+/// The value of `old` now lives somewhere else (loose, or in a new
+/// allocation): rename it to a fresh object id and give up the old one.
+fn move_value(old: Oid, loose: bool, addr: usize, vaddr: usize) -> Oid {
+    let wd = w();
+    let mut m = wd.model.borrow_mut();
+    let hd = m.objs[old as usize].has_dscript;
+    let new = m.new_obj(addr, vaddr, hd);
+    let slots = std::mem::take(&mut m.objs[old as usize].slots);
+    let wslots = std::mem::take(&mut m.objs[old as usize].wslots);
+    m.objs[new as usize].slots = slots;
+    m.objs[new as usize].wslots = wslots;
+    m.objs[new as usize].loose = loose;
+    m.objs[old as usize].st = St::Moved;
+    // records involving the given-up allocation disappear (not transferred)
+    m.purge(old);
+    new
+}
+
+pub fn apply(op: &Op) {
+    let wd = w();
+    match op {
+        Op::TryUnwrap(sel) => {
+            let n = wd.model.borrow().roots.len();
+            let Some(i) = pick(*sel, n) else { return noop() };
+            let t = wd.model.borrow().roots[i];
+            let h = wd.roots.borrow_mut().remove(i);
+            wd.model.borrow_mut().roots.remove(i);
+            let (expect_ok, had_rec) = {
+                let m = wd.model.borrow();
+                (m.strong(t) == 0, m.has_records(t))
+            };
+            let rc = take_rc(h);
+            let prev = arena::set_ctx(CtxKind::Consume, t, 0);
+            let r = lib(|| Rc::try_unwrap(rc));
+            arena::restore_ctx(prev);
+            match r {
+                Ok(node) => {
+                    if !expect_ok {
+                        std::mem::forget(node);
+                        violate(View::Consume, &format!("try_unwrap succeeded on object {} although other strong handles exist", t));
+                    }
+                    if wd.model.borrow().objs[t as usize].st != St::Alive {
+                        std::mem::forget(node);
+                        violate(View::Consume, &format!("try_unwrap ran the destructor of the value it returned (object {})", t));
+                    }
+                    if node.id.get() != t || node.canary.get() != CANARY ^ t as u64 {
+                        std::mem::forget(node);
+                        violate(View::Consume, &format!("try_unwrap returned a corrupted value for object {}", t));
+                    }
+                    if had_rec {
+                        label(lab::CONSUME_LINKED);
+                    }
+                    let new = move_value(t, true, 0, 0);
+                    node.rename(new);
+                    wd.loose.borrow_mut().push(Box::new(node));
+                }
+                Err(rc) => {
+                    if expect_ok {
+                        violate(View::Consume, &format!("try_unwrap failed on the sole strong handle of object {}", t));
+                    }
+                    if Rc::__verif_addr(&rc) != wd.model.borrow().objs[t as usize].addr {
+                        violate(View::Consume, "try_unwrap returned a different handle in Err");
+                    }
+                    wd.model.borrow_mut().roots.push(t);
+                    wd.roots.borrow_mut().push(LoggedRc::new(rc, t));
+                }
+            }
+        }
+        Op::MakeMut(sel) => {
+            let n = wd.model.borrow().roots.len();
+            let Some(i) = pick(*sel, n) else { return noop() };
+            let t = wd.model.borrow().roots[i];
+            let (strong, weak, had_rec, next) = {
+                let m = wd.model.borrow();
+                (m.strong(t), m.weak(t), m.has_records(t), m.n() as Oid)
+            };
+            if next as usize >= crate::interp::MAX_OBJECTS {
+                return noop();
+            }
+            let shared_branch = strong != 1;
+            let move_branch = strong == 1 && weak != 0;
+            wd.makemut_new.set(NONE);
+            if shared_branch {
+                wd.makemut.set(Some((i, t)));
+            }
+            // the RcBox allocated by make_mut belongs to the next object id
+            let prev = arena::set_ctx(if shared_branch || move_branch { CtxKind::New } else { CtxKind::Consume }, next, 0);
+            let (new_addr, new_vaddr, id_seen) = {
+                // take the handle out of the root list for the duration of the call
+                let mut lr = wd.roots.borrow_mut().remove(i);
+                let res = {
+                    let r: &mut Node = lib(|| Rc::make_mut(&mut *lr.h));
+                    let id_seen = r.id.get();
+                    if move_branch {
+                        // rename the moved value in place through the &mut we were given
+                        r.rename(next);
+                    }
+                    id_seen
+                };
+                let out = (Rc::__verif_addr(&lr.h), Rc::as_ptr(&lr.h) as usize, res);
+                wd.roots.borrow_mut().insert(i, lr);
+                out
+            };
+            arena::restore_ctx(prev);
+            wd.makemut.set(None);
+            let old_addr = wd.model.borrow().objs[t as usize].addr;
+            if shared_branch {
+                let new = wd.makemut_new.get();
+                if new == NONE || new_addr == old_addr {
+                    violate(View::Consume, &format!("make_mut on shared object {} did not clone the value into a new allocation", t));
+                }
+                // close the bracket of the implicit drop of the old handle
+                on_hdrop_end(t, false);
+                {
+                    let mut m = wd.model.borrow_mut();
+                    m.objs[new as usize].addr = new_addr;
+                    m.objs[new as usize].value_addr = new_vaddr;
+                }
+                wd.addr2oid.borrow_mut().push((new_addr, new));
+                wd.roots.borrow_mut()[i].target = new;
+                if id_seen != new {
+                    violate(View::Consume, "make_mut returned a reference to the wrong value");
+                }
+                count(ctr::OBJECTS, 1);
+            } else if move_branch {
+                if new_addr == old_addr {
+                    violate(View::Consume, &format!("make_mut on sole owner {} with Weak handles did not disassociate them", t));
+                }
+                if id_seen != t {
+                    violate(View::Consume, "make_mut moved the wrong value");
+                }
+                if wd.model.borrow().objs[t as usize].st != St::Alive {
+                    violate(View::Consume, &format!("make_mut ran the destructor of the value it moved (object {})", t));
+                }
+                if had_rec {
+                    label(lab::CONSUME_LINKED);
+                }
+                let new = move_value(t, false, new_addr, new_vaddr);
+                assert_eq!(new, next);
+                wd.addr2oid.borrow_mut().push((new_addr, new));
+                wd.model.borrow_mut().roots[i] = new;
+                wd.roots.borrow_mut()[i].target = new;
+                count(ctr::OBJECTS, 1);
+            } else {
+                if new_addr != old_addr || id_seen != t {
+                    violate(View::Consume, &format!("make_mut on unique object {} changed its allocation", t));
+                }
+                if had_rec {
+                    label(lab::CONSUME_LINKED);
+                }
+            }
+        }
+        Op::GetMut(sel) => {
+            let n = wd.model.borrow().roots.len();
+            let Some(i) = pick(*sel, n) else { return noop() };
+            let t = wd.model.borrow().roots[i];
+            let (strong, weak, had_rec) = {
+                let m = wd.model.borrow();
+                (m.strong(t), m.weak(t), m.has_records(t))
+            };
+            let mut roots = wd.roots.borrow_mut();
+            let lr: &mut LoggedRc = &mut roots[i];
+            let r = lib(|| Rc::get_mut(&mut *lr.h).map(|n| n.id.get()));
+            let expect = strong == 1 && weak == 0;
+            if r.is_some() != expect {
+                violate(View::Consume, &format!("get_mut on object {} returned {:?} with {} strong / {} Weak handles", t, r, strong, weak));
+            }
+            if let Some(id) = r {
+                if id != t {
+                    violate(View::Consume, "get_mut returned the wrong value");
+                }
+                if had_rec {
+                    label(lab::CONSUME_LINKED);
+                }
+            }
+        }
+        Op::IntoRaw(sel) => {
+            let n = wd.model.borrow().roots.len();
+            let Some(i) = pick(*sel, n) else { return noop() };
+            let t = wd.model.borrow().roots[i];
+            let h = wd.roots.borrow_mut().remove(i);
+            wd.model.borrow_mut().roots.remove(i);
+            let rc = take_rc(h);
+            let p = lib(|| Rc::into_raw(rc));
+            if p as usize != wd.model.borrow().objs[t as usize].value_addr {
+                violate(View::Consume, "into_raw returned a pointer different from as_ptr");
+            }
+            if wd.model.borrow().has_records(t) {
+                label(lab::CONSUME_LINKED);
+            }
+            wd.raws.borrow_mut().push(p);
+            wd.model.borrow_mut().raws.push(t);
+        }
+        Op::FromRaw(sel) => {
+            let n = wd.model.borrow().raws.len();
+            let Some(i) = pick(*sel, n) else { return noop() };
+            let p = wd.raws.borrow_mut().remove(i);
+            let t = wd.model.borrow_mut().raws.remove(i);
+            let rc = lib(|| unsafe { Rc::from_raw(p) });
+            wd.model.borrow_mut().roots.push(t);
+            wd.roots.borrow_mut().push(LoggedRc::new(rc, t));
+        }
+        Op::IncStrong(sel) => {
+            let n = wd.model.borrow().raws.len();
+            let Some(i) = pick(*sel, n) else { return noop() };
+            let p = wd.raws.borrow()[i];
+            let t = wd.model.borrow().raws[i];
+            lib(|| unsafe { Rc::increment_strong_count(p) });
+            wd.raws.borrow_mut().push(p);
+            wd.model.borrow_mut().raws.push(t);
+        }
+        Op::DecStrong(sel) => {
+            let n = wd.model.borrow().raws.len();
+            let Some(i) = pick(*sel, n) else { return noop() };
+            let p = wd.raws.borrow_mut().remove(i);
+            let t = wd.model.borrow_mut().raws.remove(i);
+            // decrement_strong_count is a drop of a handle: same bracket as any other drop
+            on_hdrop_begin(t);
+            struct G(Oid);
+            impl Drop for G {
+                fn drop(&mut self) {
+                    let _t = arena::track_off();
+                    on_hdrop_end(self.0, std::thread::panicking());
+                }
+            }
+            let _g = G(t);
+            let prev = arena::set_ctx(CtxKind::Drop, t, 0);
+            lib(|| unsafe { Rc::decrement_strong_count(p) });
+            arena::restore_ctx(prev);
+        }
+        Op::DropLoose(sel) => {
+            let n = wd.loose.borrow().len();
+            let Some(i) = pick(*sel, n) else { return noop() };
+            let b = wd.loose.borrow_mut().remove(i);
+            let id = b.id.get();
+            // the program gives the value up
+            wd.model.borrow_mut().objs[id as usize].loose = false;
+            drop(b);
+        }
+        _ => noop(),
+    }
+}
+
+/// Before the generated cleanup order: rebuild handles from raw pointers (they
+/// are then dropped like any root) and drop loose values.
+pub fn cleanup() {
+    let wd = w();
+    loop {
+        let Some(p) = wd.raws.borrow_mut().pop() else { break };
+        let t = wd.model.borrow_mut().raws.pop().unwrap();
+        let rc = lib(|| unsafe { Rc::from_raw(p) });
+        wd.model.borrow_mut().roots.push(t);
+        wd.roots.borrow_mut().push(LoggedRc::new(rc, t));
+    }
+    loop {
+        let Some(b) = wd.loose.borrow_mut().pop() else { break };
+        let id = b.id.get();
+        wd.model.borrow_mut().objs[id as usize].loose = false;
+        drop(b);
+    }
+}
